@@ -117,6 +117,20 @@ ALT_RULES = {  # other verbs / templates / bodies, same selectors
     "google.longrunning.Operations.WaitOperation": {"post": "/v3/{name=operations/*}:wait", "body": "*",
                                                     "additional_bindings": [{"get": "/v3/{name=ops/*}:peek"}]},
 }
+SAME_URI_RULES = dict(DEFAULT_RULES)   # additional bindings that RE-USE the primary uri with another verb / body, or repeat it
+SAME_URI_RULES.update({
+    "google.iam.v1.IAMPolicy.GetIamPolicy": {"get": "/v1/{resource=projects/*/widgets/*}:getIamPolicy",
+                                              "additional_bindings": [{"post": "/v1/{resource=projects/*/widgets/*}:getIamPolicy", "body": "*"}]},
+    "google.iam.v1.IAMPolicy.SetIamPolicy": {"post": "/v1/{resource=projects/*/widgets/*}:setIamPolicy", "body": "*",
+                                              "additional_bindings": [{"put": "/v1/{resource=projects/*/widgets/*}:setIamPolicy", "body": "policy"}]},
+    "google.longrunning.Operations.GetOperation": {"get": "/v1/{name=projects/*/operations/*}",
+                                                   "additional_bindings": [{"get": "/v1/{name=projects/*/operations/*}"},
+                                                                           {"get": "/v1/{name=folders/*/operations/*}"}]},
+    "google.longrunning.Operations.CancelOperation": {"post": "/v1/{name=projects/*/operations/*}:cancel", "body": "*",
+                                                      "additional_bindings": [{"post": "/v1/{name=projects/*/operations/*}:cancel"}]},
+    "google.cloud.location.Locations.ListLocations": {"get": "/v1/{name=projects/*}/locations",
+                                                      "additional_bindings": [{"post": "/v1/{name=projects/*}/locations", "body": "*"}]},
+})
 VERBS = ("get", "put", "post", "delete", "patch")
 
 
@@ -145,9 +159,9 @@ def random_config(r, weird=False):
     for api, m in ALL_METHODS:
         sel = f"{api}.{m}"
         if r.random() < 0.6:
-            rules.append(rule(sel, r.choice([DEFAULT_RULES, ALT_RULES])[sel]))
+            rules.append(rule(sel, r.choice([DEFAULT_RULES, ALT_RULES, SAME_URI_RULES])[sel]))
         if weird and r.random() < 0.12:     # a second rule for the same selector (the later one is the effective one)
-            rules.append(rule(sel, r.choice([DEFAULT_RULES, ALT_RULES])[sel]))
+            rules.append(rule(sel, r.choice([DEFAULT_RULES, ALT_RULES, SAME_URI_RULES])[sel]))
         if weird and r.random() < 0.12:
             near = r.choice([sel + "x", "x" + sel, sel.lower(), m, f"{api}.*", f"google.example.{m}", sel.replace(".", "/"),
                              f"{api.rsplit('.', 1)[0]}.{m}", sel + "."])
